@@ -382,7 +382,11 @@ def oracle_doc_expected(line, m, impl, model):
     if exp is None:
         return None
     out = unhex(impl["clean"])
-    if out != exp.encode():
+    want = exp.encode()
+    if m.get("ignore_trailing_ws"):
+        # a block that ends the file: which blanks / line breaks are left at the very end is not part of the expectation
+        out, want = out.rstrip(b" \t\n"), want.rstrip(b" \t\n")
+    if out != want:
         if m.get("known_class"):
             return ("known", m["known_class"])
         return f"clean gave {out!r}, expected {exp!r} ({m.get('why', '')})"
@@ -1021,7 +1025,8 @@ def gen_c09(rng, tier):
 
 def gen_c10(rng, tier):
     cases, meta = [], {}
-    atoms = ["<a>", "<b>", "</a>", "</b>", "</z>", "t", "<//a>", "<a k='v'>", "<a\r\n>", "</a\r\n>", "<a\r\n k='v'>", "<b\r>", "</b\r>"]
+    atoms = ["<a>", "<b>", "</a>", "</b>", "</z>", "t", "<//a>", "<a k='v'>", "<a\r\n>", "</a\r\n>", "<a\r\n k='v'>", "<b\r>", "</b\r>",
+             "<A>", "</A>", "</B>", "</a k='v'>", "<>", "< >"]
     L = 5 if tier == "quick" else 7
     import itertools
     k = 0
@@ -1273,6 +1278,16 @@ def gen_c06(rng, tier):
             k += 1
             cases.append(G.dcase(cid, "<", ">", src, cfg))
             meta[cid] = {"stream": "probe", "expect": "ab" if rdy else src, "why": f"identical tag names, {attrs} targets={targets}"}
+    # `skip` / `unwrap-block` in another letter case are unknown attributes
+    cfg0 = G.Cfg("tl", "rm", "+00:00", G.NOW, ("x",))
+    for attrs, exp_inner in ((["SKIP"], None), (["Skip"], None), (["sKIP=''"], None), (["skip"], "KEEP"), (["Unwrap-Block"], None), (["UNWRAP-BLOCK"], None)):
+        for tagtxt in ("tl " + G.EXPIRED, 'rm name="x"'):
+            nm = tagtxt.split(" ")[0]
+            src = f"a\n<{tagtxt} " + " ".join(attrs) + f">\n{{\n  y\n}}\n</{nm}>\nb\n"
+            cid = f"s{k}"
+            k += 1
+            cases.append(G.dcase(cid, "<", ">", src, cfg0))
+            meta[cid] = {"stream": "probe", "expect": src if exp_inner == "KEEP" else "a\nb\n", "why": f"attribute spelling {attrs}"}
     # several attributes called `name`: the first one decides, with or without a value
     cfg1 = G.Cfg("tl", "rm", "+00:00", G.NOW, ("x",))
     for attrs, rdy in ((["name", 'name="x"'], False), (["name=x", 'name="x"'], False), (['name=""', 'name="x"'], False), (['name="y"', 'name="x"'], False),
@@ -1380,10 +1395,12 @@ def gen_c13(rng, tier):
         unit = rng.choice(["  ", "    ", "\t", " \t", "\t ", "\t \t"])
         first = rng.random() < 0.15
         lines, expect = block_doc(rng, ds, de, cfg, unit, first)
-        if not first and rng.random() < 0.3:
-            # nest everything in a pending parent whose tag lines survive as ordinary non-blank lines
-            o = rng.choice(["", unit]) + ds + "tl " + G.FUTURE + de
-            c = rng.choice(["", unit]) + ds + "/tl" + de
+        if not first and rng.random() < 0.4:
+            # nest everything in a pending parent - or in a closed element of a tag name that is not configured -
+            # whose tag lines survive as ordinary non-blank lines
+            pn, pa = rng.choice([("tl", " " + G.FUTURE), ("tl", " " + G.FUTURE), ("region", ' name="hero"'), ("section", ""), ("rm", ' name="other"')])
+            o = rng.choice(["", unit]) + ds + pn + pa + de
+            c = rng.choice(["", unit]) + ds + "/" + pn + de
             lines = [o] + lines + [c]
             expect = [o] + expect + [c]
         final_nl = rng.random() < 0.5
@@ -1453,7 +1470,7 @@ def oracle_c13(line, m, impl, model):
     return None
 
 
-def unwrap_doc(rng, ds, de, cfg, unit, depth, tag_units, first_line, k_between=None):
+def unwrap_doc(rng, ds, de, cfg, unit, depth, tag_units, first_line, k_between=None, no_post=False):
     """unwrap documents with expected output.  Returns (lines, expected lines or None)"""
     base = unit * tag_units
     def build(level, ind, shift):
@@ -1521,7 +1538,7 @@ def unwrap_doc(rng, ds, de, cfg, unit, depth, tag_units, first_line, k_between=N
         between.append(rng.choice(["", ind]) if rng.random() < 0.12 else ind + "}")
     lines.extend(between)
     lines.append(close_l)
-    post = [rng.choice(["b", unit + "b"])]
+    post = [] if no_post else [rng.choice(["b", unit + "b"])]      # no_post: the closing tag is the last line of the file
     lines.extend(post)
     if nb < 2:
         exp = list(lines)
@@ -1591,14 +1608,21 @@ def gen_c11(rng, tier):
         unit = rng.choice(["  ", "    ", "\t", " \t", "\t "])
         first = rng.random() < 0.12
         tu = rng.randint(0, 2)
-        lines, exp = unwrap_doc(rng, ds, de, cfg, unit, 1, tu, first, k_between=rng.choice([0, 1, 2, 2, 3, 4, 5, 6]))
+        no_post = rng.random() < 0.12
+        lines, exp = unwrap_doc(rng, ds, de, cfg, unit, 1, tu, first, k_between=rng.choice([0, 1, 2, 2, 3, 4, 5, 6]), no_post=no_post)
         fin = rng.random() < 0.5
         src = "\n".join(lines) + ("\n" if fin else "")
         ex = "\n".join(exp) + ("\n" if fin else "")
+        if no_post and exp != lines:
+            # the block ends the file: the line break in front of the closing wrapper line stays, whether or not the
+            # file ended in one
+            ex = "\n".join(exp) + "\n" if exp else ""
         cid = f"u{i}"
         cases.append(G.dcase(cid, ds, de, src, cfg))
         kc = None   # (first-line blocks were known finding KF1 until the repairs F13/F14)
         meta[cid] = {"stream": "unwrap", "expect": ex, "known_class": kc, "why": "unwrap-block four-line removal and dedent"}
+        if no_post:
+            meta[cid]["ignore_trailing_ws"] = True
     for i in range(800 if tier == "quick" else 10000):
         ds, de = rng.choice(G.DELIMS)
         unit = rng.choice(["  ", "    ", "\t"])
@@ -1630,7 +1654,7 @@ def occurrences(s, p):
 
 C18_TAGNAMES = G.TAGNAMES + [("time-limited", "limited"), ("marker", "removal-marker"), ("x-期限", "期限"), ("tl", "tl2"),
                              ("ab", "a"), ("a", "a-b"), ("t", "tt"), ("Übergang", "ÉTIQUETTE"), ("ΤΕΛΟΣ", "Ärmel"), ("TL", "Rm"),
-                             ("ǅ", "İ")]
+                             ("ǅ", "İ"), ("MARKER", "marker"), ("tl", "TL"), ("Rm", "rm"), ("x-Y", "X-y")]
 
 
 def render_abs(s_abs, ds, de, tl, rm):
